@@ -9,6 +9,6 @@ open UtilModel
 
 def main (args : List String) : IO UInt32 :=
   driverMain [
-    mkEntry "lifo" Treiber.model Treiber.Obs.parse [MonEntry.ofMonitor "C12" Treiber.monC12],
-    mkEntry "linkedlist" LinkedList.model LinkedList.parseObs [MonEntry.ofMonitor "C12" LinkedList.monC12]
+    mkEntry "lifo" Treiber.model Treiber.Obs.parse [MonEntry.ofMonitor "C12" Treiber.monC12] (cap := 1200),
+    mkEntry "linkedlist" LinkedList.model LinkedList.parseObs [MonEntry.ofMonitor "C12" LinkedList.monC12] (cap := 2000)
   ] args
